@@ -203,6 +203,17 @@ func (s *Server) writeAOF(args []string, d *commandDetails) error {
 		} else {
 			nargs := make([]string, len(args))
 			copy(nargs, args)
+			if (cmd == "sethook" || cmd == "setchan") && len(args) > 1 {
+				// a fence over `GET key id` holds the object as it was when
+				// the command ran; replayed behind the rewritten snapshot
+				// the lookup would find whatever is there at the end
+				hook, _ := s.hooks.Get(&Hook{Name: args[1]}).(*Hook)
+				if hook != nil && hook.channel == (cmd == "setchan") &&
+					len(hook.Message.Args) <= len(args) {
+					n := len(args) - len(hook.Message.Args)
+					nargs = append(nargs[:n:n], shrinkHookCommand(hook)...)
+				}
+			}
 			s.shrinklog = append(s.shrinklog, nargs)
 		}
 	}
